@@ -168,6 +168,8 @@ def iradon_torch(
         val1 = torch.gather(filtered_i, 1, t1.view(B, -1)).view(B, output_size, output_size)
 
         proj = (1 - w) * val0 + w * val1
+        # zero outside the detector (np.interp(..., left=0, right=0)), not extrapolated
+        proj = torch.where((t_idx >= 0) & (t_idx <= N - 1), proj, torch.zeros_like(proj))
         recon += proj
 
     if circle:
